@@ -214,6 +214,20 @@ func fill(c *ev.Case, k *keyid.KeyID) {
 	k.ReqUser = gen.Str(c.Rand, 24)
 	k.ReqIP = gen.IP(c.Rand)
 	k.ReqHost = gen.Str(c.Rand, 40)
+	// no attribute has a length bound: now and then one of them is large
+	switch c.Rand.Intn(32) {
+	case 0:
+		k.Principals = nil
+		for n := 200 + c.Rand.Intn(600); n > 0; n-- {
+			k.Principals = append(k.Principals, gen.Str(c.Rand, 24))
+		}
+	case 1:
+		k.ReqHost = strings.Repeat(gen.Str(c.Rand, 40)+"h", 100+c.Rand.Intn(1500))
+	case 2:
+		k.TransID = strings.Repeat("<&>", 700+c.Rand.Intn(600)) // six-fold expansion by the JSON encoder
+	case 3:
+		k.ReqUser = strings.Repeat("\u00e9\"", 1024+c.Rand.Intn(8192))
+	}
 }
 
 // rawJSON encodes the struct without going through the codec's own checks.
@@ -371,6 +385,11 @@ func surgery(text string, m map[string]json.RawMessage) []variant {
 		mm := clone(m)
 		delete(mm, k)
 		out = append(out, variant{build(mm, keys, ""), "delete:" + k})
+		// the member moved out of the top level into a member the decoder ignores
+		out = append(out, variant{build(mm, keys, `"ext":{`+string(mustJSON(k))+`:`+string(m[k])+`}`), "nested-in-ignored-object:" + k})
+		out = append(out, variant{"{" + `"ext":{` + string(mustJSON(k)) + `:` + string(m[k]) + `},` + build(mm, keys, "")[1:], "nested-in-ignored-object:" + k})
+		out = append(out, variant{build(mm, keys, `"ext":[{`+string(mustJSON(k))+`:`+string(m[k])+`}]`), "nested-in-ignored-array:" + k})
+		out = append(out, variant{build(mm, keys, `"note":`+string(mustJSON(string(mustJSON(k))+":"+string(m[k])))), "quoted-in-ignored-string:" + k})
 		// case renames
 		for _, nk := range []string{strings.ToUpper(k), strings.ToLower(k), strings.ToUpper(k[:1]) + k[1:]} {
 			if nk == k {
@@ -432,6 +451,8 @@ func surgery(text string, m map[string]json.RawMessage) []variant {
 	}
 	return out
 }
+
+func mustJSON(v any) []byte { b, _ := json.Marshal(v); return b }
 
 func clone(m map[string]json.RawMessage) map[string]json.RawMessage {
 	o := make(map[string]json.RawMessage, len(m))
